@@ -294,26 +294,31 @@ Section Sim.
       f <- match lookup a attr_profile_map with Some f => Ok f | None => Err EKeyProfile end ;;
       Ok (Qred (get4 acc a + pget prof f * get4 shipv a * tp))).
 
-  (* body of the `for tick_data in ...` loop up to the recording of the state *)
+  (* body of the `for tick_data in ...` loop up to the recording of the state.
+     The Python runs three loops over the hardeners (add the damage of the
+     tick; shift those that finished a cycle; record the states).  Once the
+     ship values of the tick are fixed the hardeners do not influence each
+     other within a tick, so the model handles one hardener at a time: same
+     values; only the order in which two different errors would surface
+     differs, and every error ends in the same fallback. *)
+  Definition tick_item (prof : profile) (shipv : R4) (tp : Q)
+             (sf : hstate * (bool * Q)) : outcome (hstate * rah_state) :=
+    let (s, f) := sf in
+    let (cycled, cyc') := f in
+    acc <- add_dmg prof shipv tp (s_acc s) ;;
+    s' <- (if cycled then
+             sh <- shift_of (s_h s) ;;
+             nr <- next_resos (s_resos s) acc (sh / 100) ;;
+             Ok (mkHS (s_h s) cyc' nr zero4)
+           else Ok (mkHS (s_h s) cyc' (s_resos s) acc)) ;;
+    rr <- round4 (s_resos s') ;;
+    Ok (s', mkRS cyc' (s_resos s') rr acc cycled).
+
   Definition tick_body (prof : profile) (tp : Q) (fl : list (bool * Q))
              (st : list hstate) : outcome (list hstate * tick_state) :=
     shipv <- match st with [] => Ok zero4 | _ => ship_values (map s_resos st) end ;;
-    st1 <- mapM (fun s => acc <- add_dmg prof shipv tp (s_acc s) ;;
-                          Ok (mkHS (s_h s) (s_cyc s) (s_resos s) acc)) st ;;
-    st2 <- mapM (fun sf : hstate * (bool * Q) =>
-                   let (s, f) := sf in
-                   let (cycled, cyc') := f in
-                   if cycled then
-                     sh <- shift_of (s_h s) ;;
-                     nr <- next_resos (s_resos s) (s_acc s) (sh / 100) ;;
-                     Ok (mkHS (s_h s) cyc' nr zero4, (s_acc s, true))
-                   else Ok (mkHS (s_h s) cyc' (s_resos s) (s_acc s), (s_acc s, false)))
-                (combine st1 fl) ;;
-    ts <- mapM (fun sg : hstate * (R4 * bool) =>
-                  let (s, g) := sg in
-                  rr <- round4 (s_resos s) ;;
-                  Ok (mkRS (s_cyc s) (s_resos s) rr (fst g) (snd g))) st2 ;;
-    Ok (map fst st2, ts).
+    r <- mapM (tick_item prof shipv tp) (combine st fl) ;;
+    Ok (map fst r, map snd r).
 
   (* __get_avg_resos: per hardener, sum and count of the resonances of the
      states in which its cycle is just starting *)
